@@ -55,6 +55,12 @@ type State struct {
 	priv   []privObj // objects no other code can reach: a havoc leaves their fields alone (escape.go)
 }
 
+type immutArr struct {
+	ref, content Term
+	comp         string
+	blk          *ssa.BasicBlock
+}
+
 type privObj struct {
 	ref Term
 	T   types.Type
@@ -139,6 +145,7 @@ type FnCtx struct {
 	storeDefs    map[Term]storeDef
 	private      []privObj
 	hintSeen     map[string]bool // program points ("before <key> assert") met while translating
+	immutArr     []immutArr      // byte arrays that hold a string's bytes and can never be written (instr.go)
 	constComps   map[string]bool // components of package variables that never change after initialisation
 	frozenFV     map[*ssa.FreeVar]Term
 	pointSites   map[string]int
@@ -324,6 +331,7 @@ func (c *FnCtx) get(st *State, comp string) Term {
 				old := c.get(s.parent, comp)
 				c.axioms = append(c.axioms, app("<=", old, t))
 			}
+			c.immutFacts(s, comp, t)
 			for _, p := range s.priv {
 				st, isSt := p.T.Underlying().(*types.Struct)
 				if !isSt {
@@ -349,6 +357,7 @@ func (c *FnCtx) get(st *State, comp string) Term {
 		if s.parent == nil {
 			t := c.blockIn(s.blk, comp)
 			s.m[comp] = t
+			c.immutFacts(s, comp, t)
 			return t
 		}
 		chain = append(chain, s)
@@ -559,4 +568,17 @@ func (c *FnCtx) tyInv(x Term, t types.Type) Term {
 		return app("<=", x, c.curAlloc())
 	}
 	return "true"
+}
+
+// immutFacts: in a freshly introduced version t of a byte-array component (after a havocing call, or at the
+// entry of a block) the immutable arrays defined in a dominating block still hold their string's bytes.
+func (c *FnCtx) immutFacts(s *State, comp string, t Term) {
+	if s.blk == nil || s.blk.b == nil {
+		return
+	}
+	for _, im := range c.immutArr {
+		if im.comp == comp && im.blk != nil && im.blk != s.blk.b && im.blk.Dominates(s.blk.b) {
+			c.axioms = append(c.axioms, eq(app("select", t, im.ref), im.content))
+		}
+	}
 }
